@@ -732,7 +732,8 @@ func checkNoStructBypass(r *Run, prog *Program, a *Anchors, pfx string) {
 		r.Check(pfx+".positive-control", "c08pos:inspection", "/verif/checker/testdata/c08pos/pos.go", len(ci) >= 3, fmt.Sprintf("the datum-inspection rule matched only %d of the ≥3 constructs of its positive-control package: %v", len(ci), ci))
 	}
 	// single gateway into pointerstructure
-	allowed := map[string]bool{"Get": true, "String": true, "Parse": true}
+	// Parent: the same pointer (same Config) without its last part — it reads nothing from a datum
+	allowed := map[string]bool{"Get": true, "String": true, "Parse": true, "Parent": true}
 	seen := map[string]bool{}
 	for _, fn := range prog.ModuleFuncs() {
 		for _, b := range fn.Blocks {
@@ -752,7 +753,7 @@ func checkNoStructBypass(r *Run, prog *Program, a *Anchors, pfx string) {
 				isMethod := callee.Signature.Recv() != nil
 				okC := allowed[name] && (isMethod || name == "Parse")
 				seen[name] = true
-				r.Check(pfx+".single-gateway", fn.Name()+"→pointerstructure."+name, prog.pos(ins.Pos()), okC, "module code enters pointerstructure through "+callee.String()+": the only gateways are Pointer.Get (with the evaluator's Config), Pointer.String and Parse")
+				r.Check(pfx+".single-gateway", fn.Name()+"→pointerstructure."+name, prog.pos(ins.Pos()), okC, "module code enters pointerstructure through "+callee.String()+": the only gateways are Pointer.Get (with the evaluator's Config), Pointer.String, Pointer.Parent and Parse")
 			}
 		}
 	}
